@@ -783,7 +783,7 @@ example : (Auth.step .updateFixed [1] (booted .updateFixed) (.updateAdmin (s "a0
     (Auth.step .updateFixed [1] (booted .updateFixed) (.removeAdmin (s "a0"))).2 = .badRequest ∧
     (Auth.step .updateFixed [1, 2] (booted .updateFixed) (.updateAdmin (s "a0") true)).2 = .reloadFailed := by decide
 
-/-- **cache_eq_store / remove_provisioner_exact (refutation, /repo as it stands: D18)** — renaming a
+/-- **cache_eq_store / remove_provisioner_exact (historic refutation, D26: tree before `fix:` 2140646, `Variant.updateFixed`)** — renaming a
     provisioner that has administrators is accepted and stored, but the administrator cache keeps
     the old name: the running CA no longer finds the admin under (subject, current name) although
     a restart would; `RemoveProvisioner` then succeeds without deleting that admin — the last
@@ -797,11 +797,13 @@ theorem rename_breaks_cache_eq_store :
      r.2 = .ok ∧ r.1.db.provs = [] ∧ r.1.db.adms = db0.adms ∧
      (Auth.step .updateFixed [] r.1 .restart).2 = .reloadFailed) := by decide
 
-/-- the repaired code on the same history: the cache is the image of the database after the
-    rename, and the provisioner holding the last super admin cannot be removed -/
-example :
-    (Auth.step .fixed [] (booted .fixed) (.updateProv p0')).2 = .ok ∧ IsImage (renamed .fixed) ∧
-    (Auth.step .fixed [] (renamed .fixed) (.removeProv (s "p0"))).2 = .badRequest := by
+/-- /repo as it stands (`current`, after `fix:` 2140646) on the same history: the cache is the image
+    of the database after the rename, the admin is found under (subject, new name), and the
+    provisioner holding the last super admin cannot be removed -/
+theorem rename_consistent_current :
+    (Auth.step current [] (booted current) (.updateProv p0')).2 = .ok ∧ IsImage (renamed current) ∧
+    (renamed current).cache.A.bySubProv.get (s "step", s "n2") ≠ none ∧
+    (Auth.step current [] (renamed current) (.removeProv (s "p0"))).2 = .badRequest := by
   unfold IsImage; decide
 
 /-! ## 6. a policy that would lock an administrator out is refused -/
